@@ -481,9 +481,16 @@ def chunk_crossing(ctx, tmp):
     """> 100 000 stored values: the binary writer works in chunks of 100 000."""
     rng = ctx.rng
     n = np.array([int(rng.integers(30, 44)), int(rng.integers(28, 36)), int(rng.integers(28, 34))])
+    nvdim = int(gen.pick(rng, [3, 4, 5]))
+    if rng.random() < 0.4:
+        # the round sizes people actually use (100 x 100 x 10 cells, ...): cell and value
+        # counts that are whole multiples - or just not - of any round chunk size
+        n = np.array(gen.pick(rng, [(100, 100, 10), (50, 50, 40), (125, 80, 10), (40, 50, 50),
+                                    (200, 50, 10), (100, 50, 20), (64, 64, 32)]))[rng.permutation(3)]
+        nvdim = int(gen.pick(rng, [3, 3, 6, 7, 9, 1, 2]))
+        ctx.event("chunk_crossing_round_sizes")
     cell = 10.0 ** rng.uniform(-9, 0) * rng.uniform(0.5, 2, 3)
     spec = gen.MeshSpec(-rng.uniform(0, 1, 3) * cell * n, cell, n, None, None, [False] * 3)
-    nvdim = int(gen.pick(rng, [3, 4, 5]))
     arr = ig.rand_float_values(rng, (*n, nvdim), "normal")
     f = df.Field(spec.mesh(), nvdim=nvdim, value=arr)
     ctx.sig(("chunk", nvdim, int(arr.size // 100000)), nontrivial=True)
